@@ -41,6 +41,8 @@ const C: &str = "p::a::C";
 const Q: &str = "p::b::Q";
 /// reachable from P only through the marker-only generic argument of `Mk<K>`
 const K: &str = "p::a::K";
+/// a field of K: below P by three steps, the middle one a generic argument
+const LF: &str = "p::a::Lf";
 const D1: &str = "::d::One";
 const D2: &str = "::d::Two";
 /// a different path with the same final identifier as D1
@@ -378,7 +380,8 @@ fn probe_registry() -> scale_info::PortableRegistry {
         Def::strukt(&["p", "a"], "C", &[], named(vec![("v", U8)])),
         Def::strukt(&["p", "b"], "Q", &[], unnamed(vec![U16])),
         Def::strukt(&["p", "a"], "Mk", &["T"], named(vec![("v", U8), ("p", Ty::Phantom(b(Ty::Param(0))))])),
-        Def::strukt(&["p", "a"], "K", &[], named(vec![("k", U8)])),
+        Def::strukt(&["p", "a"], "K", &[], named(vec![("k", U8), ("leaf", Ty::Named(5, vec![]))])),
+        Def::strukt(&["p", "a"], "Lf", &[], named(vec![("v", U16)])),
     ];
     elaborate(&Program {
         defs,
@@ -418,6 +421,7 @@ fn expected_on(m: &Model, path: &str) -> (BTreeSet<String>, BTreeSet<String>) {
         P => &[P],
         C => &[C, P],
         K => &[K, P],
+        LF => &[LF, K, P],
         _ => &[Q],
     };
     if let Some(x) = m.spec_d.get(path) {
@@ -631,7 +635,7 @@ pub fn check_history(h: &[Call], ctx: &mut Ctx) -> Model {
         match out {
             GenOutcome::Ok { tokens } => match parse_emitted(&tokens) {
                 Ok(em) => {
-                    for path in [P, C, Q, K] {
+                    for path in [P, C, Q, K, LF] {
                         let mut full = vec!["types".to_string()];
                         full.extend(path.split("::").map(|s| s.to_string()));
                         let Some(item) = em.items.get(&full) else {
